@@ -1,8 +1,8 @@
 (** C18 — obligations over the facts regenerated from /repo (Gen/C18Facts.v): the parts of the
     property that are "which decorator order / which formula / which guard before which write". *)
-From Coq Require Import String List Bool Arith.
+From Coq Require Import String List Bool Arith ZArith.
 Import ListNotations.
-Require Import Nib.Gen.C18Facts.
+Require Import Nib.Lib.Dec Nib.C18.Model Nib.C18.Spec Nib.C18.Proofs Nib.Gen.C18Facts.
 Open Scope string_scope.
 
 Fixpoint index_of (x : string) (l : list string) : option nat :=
@@ -95,3 +95,53 @@ Theorem C18_registry_writes_are_guarded :
   signer_field_MsgUpdateFeeShare = "DeployerAddress" /\
   signer_field_MsgCancelFeeShare = "DeployerAddress".
 Proof. vm_compute. repeat split; reflexivity. Qed.
+
+(** ---- module parameters as part of the histories *)
+
+(** the environment the implementation traces are evaluated in (tools/props/c18.py builds exactly
+    this record for every case): ids 0 = fee collector, 1 = gov, 2 = distribution; everything
+    else is extracted *)
+Definition extracted_env : env :=
+  {| e_collector := 0; e_gov := 1; e_blocked := [0; 2];
+     e_allowed_once := allowed_fees_break_after_first_match;
+     e_defaults := devgas_default_params; e_san := devgas_sanitize_rules |}.
+
+(** What ModuleParams.Sanitize rewrites (the extracted guarded rewrites over the extracted
+    DefaultParams()) keeps the meaning of EVERY parameter value: same EnableFeeShare, same
+    DeveloperShares, the same denoms allowed.  In particular no valid value — not the corner
+    "disabled, share 0, empty denom list" either — is read back as something else. *)
+Theorem C18_sanitize_keeps_the_meaning_of_params :
+  devgas_sanitize_understood = true /\ devgas_default_params_understood = true /\
+  forall p, params_same (sanitize extracted_env p) p.
+Proof.
+  split; [reflexivity|]. split; [reflexivity|].
+  intros [en sh [|d al]]; destruct en; destruct (Z.eqb_spec sh 0); subst;
+    try (apply params_same_refl);
+    unfold sanitize; cbn; repeat match goal with H : ?x <> 0%Z |- context [Z.eqb ?x 0] =>
+      destruct (Z.eqb_spec x 0); [contradiction|] end; cbn; apply params_same_refl.
+Qed.
+
+(** Every reader goes through Keeper.GetParams = Sanitize(stored item) (the ante handler and the
+    three registry handlers: [C18_payout_formula_as_modelled], [C18_registry_writes_are_guarded]);
+    UpdateParams validates the request and stores it as it is; InitGenesis validates the genesis
+    state (which validates its params) and stores Sanitize(params) — [Model.read_params],
+    [Model.step_env]. *)
+Theorem C18_params_are_read_and_stored_as_modelled :
+  getparams_returns = "R.ModuleParams.Get(P0)#0.Sanitize()" /\
+  update_params_stores = "P1.Params" /\ list_eqb update_params_validates ["P1.Params"] = true /\
+  init_genesis_stores = "P2.Params.Sanitize()" /\ list_eqb init_genesis_validates ["P2"] = true /\
+  genesis_validate_checks_params = true.
+Proof. vm_compute. repeat split; reflexivity. Qed.
+
+(** Hence the history theorem applies to the extracted configuration: for every history of
+    transactions, parameter changes by MsgUpdateParams / genesis, admin changes and block
+    boundaries from a state whose stored params mean what was set, every transaction satisfies the
+    property against the parameters AS SET. *)
+Theorem C18_property_holds_for_the_extracted_configuration :
+  forall (evs : list event) (st : state),
+  store_ok st -> Forall event_ok evs -> Forall (transition_ok extracted_env) (transitions extracted_env st evs).
+Proof.
+  intros evs st Hst Hev. apply history_satisfies_property; auto.
+  split; [simpl; auto|]. split; [reflexivity|].
+  intros p _. apply C18_sanitize_keeps_the_meaning_of_params.
+Qed.
